@@ -239,6 +239,8 @@ def expectation(layers, policy):
     except model.Reject as ex:
         e['rejected'] = ex.why
     e['skip'] = notes.unspec[0] if notes.unspec else None
+    if e['merged'] is not None and has_marker(e['merged']) and (drop_nulls(e['merged']) is None or not has_marker(drop_nulls(e['merged']))):
+        e['skip'] = 'the only markers are directive keys with a null value (statement silent)'
     if e['merged'] is not None and uncertain(e['merged']):
         e['skip'] = 'an injected directive was edited by an upper layer into a possibly valid one'
     if e['merged'] is not None and not e['skip']:
